@@ -24,7 +24,7 @@ def make_copy(m):
         p = os.path.join(tmp, f)
         s = open(p).read()
         if s.count(old) < 1:
-            raise SystemExit("mutant %s: pattern not found in %s: %r" % (m["id"], f, old))
+            raise LookupError("mutant %s: pattern not found in %s: %r" % (m["id"], f, old[:80]))
         s = s.replace(old, new, 1)
         open(p, "w").write(s)
     return tmp
@@ -54,7 +54,12 @@ def main(argv):
         props = [p for p in m["props"] if not only_props or p in only_props]
         if not props:
             continue
-        tmp = make_copy(m)
+        try:
+            tmp = make_copy(m)
+        except LookupError as e:
+            rows.append((m["id"], "-", "STALE-MUTANT", 0.0, str(e)[:140]))
+            print("%-34s %-4s %-13s %6.1fs %s" % rows[-1], flush=True)
+            continue
         out = tempfile.mkdtemp(prefix="jsmutout_", dir="/tmp")
         try:
             for pid in props:
